@@ -44,6 +44,14 @@ class World:
     def __init__(self):
         self.pblds, self.pipes, self.dblds, self.dsets = [], [], [], []
         self.itemlist_changes = []
+        # which component instances are SUPPOSED to be shared: a token per instance.  A component added by class is
+        # constructed anew by every build ("ctor" until then); an instance handed in by the caller is the caller's;
+        # modify() reuses the pipeline's instances (documented); clone() re-creates everything.
+        self.btok, self.ptok, self.ntok = [], [], 0
+
+    def tok(self):
+        self.ntok += 1
+        return self.ntok
 
     # ---- observations -------------------------------------------------------------------------
     def obs_pipe(self, p: Pipeline, runs):
@@ -72,6 +80,10 @@ class World:
             "nic": {n.name: {k: v.name for k, v in p.node_input_connections(n).items()} for n in p.nodes()},
             "private_edges": {n: dict(e) for n, e in p._edges.items()},
         }
+        j = next((i for i, q in enumerate(self.pipes) if q is p), None)
+        toks = self.ptok[j] if j is not None and j < len(self.ptok) else {}
+        o["inst"] = {n.name: [id(n.component), toks.get(n.name)] for n in p.nodes()
+                     if isinstance(n, ComponentNode) and isinstance(n.component, Component)}
         res = []
         for inputs in runs:
             row = []
@@ -172,6 +184,7 @@ class World:
         try:
             if k == "pnew":
                 self.pblds.append(PipelineBuilder(name=op.get("name")))
+                self.btok.append({})
             elif k == "pb_input":
                 self.pblds[op["b"]].create_input(op["name"], int)
             elif k == "pb_literal":
@@ -185,6 +198,11 @@ class World:
                 else:
                     b.replace_component(op["name"], *args, **kw)
                 r["code"] = PipelineComponent.from_node(b._nodes[op["name"]]).code
+                st = op.get("style", "fn")
+                if st == "fn":
+                    self.btok[op["b"]].pop(op["name"], None)
+                else:
+                    self.btok[op["b"]][op["name"]] = "ctor" if st == "class" else self.tok()
             elif k == "pb_connect":
                 b = self.pblds[op["b"]]
                 b.connect(op["name"], **{p: b.node(t) for p, t in op["ins"]})
@@ -198,16 +216,22 @@ class World:
                 self.pblds[op["b"]].default_component(op["name"])
             elif k == "pbuild":
                 self.pipes.append(self.pblds[op["b"]].build())
+                self.ptok.append({n: (self.tok() if t == "ctor" else t) for n, t in self.btok[op["b"]].items()})
             elif k == "pmodify":
                 self.pblds.append(self.pipes[op["p"]].modify())
+                self.btok.append(dict(self.ptok[op["p"]]))
             elif k == "pclone":
                 self.pipes.append(self.pipes[op["p"]].clone())
+                self.ptok.append({n: self.tok() for n in self.ptok[op["p"]]})
             elif k == "ptrain":
                 tgt = self.pipes[op["p"]]
-                mine = {id(n.component) for n in tgt.nodes() if isinstance(n, ComponentNode) and isinstance(n.component, Trainable)}
-                for q in self.pipes:
-                    if q is not tgt and any(isinstance(n, ComponentNode) and id(n.component) in mine for n in q.nodes()):
-                        raise LookupError("trainable instances are shared with another pipeline")
+                # train only a pipeline whose trainable instances are SUPPOSED to be its own (whether they really are is
+                # what the observations afterwards show)
+                names = [n.name for n in tgt.nodes() if isinstance(n, ComponentNode) and isinstance(n.component, Trainable)]
+                mine = {self.ptok[op["p"]].get(n) for n in names} - {None}
+                for kq, q in enumerate(self.ptok):
+                    if kq != op["p"] and mine & set(q.values()):
+                        raise LookupError("trainable instances are shared with another pipeline by design")
                 tgt.train(self.dsets[op["d"]], TrainingOptions(rng=7))
                 r["label"] = self.dsets[op["d"]].name
             elif k == "prun":
